@@ -600,7 +600,40 @@ def r18_10(ctx):
     ctx.run_rule("R18.10", "the header list handed over by the caller is read to its end", body, floor=2)
 
 
+REVIEWED_STATICS = {
+    "callback_log::INIT": "one-time registration of the logger (no data of a call is kept)",
+    "<filter::html_filter_body::VOID_ELEMENTS as std::ops::Deref>::deref::__stability::LAZY": "lazy_static cell of the constant void-element table",
+}
+
+
+def r18_11(ctx):
+    F = ctx.facts
+
+    def body(r):
+        # the library keeps nothing between two calls but the objects it handed out: every static that can change
+        # (mutable, or with interior mutability -- a `thread_local!` cell, a `Mutex`, a `OnceCell` ...) is reviewed by name.
+        # A cache filled by one call and read by the next one holds on to whatever the first caller passed in
+        # (borrowed strings included) and makes an answer depend on the calls that came before.
+        n = 0
+        for s_ in F.statics:
+            if not (s_["mut"] or not s_["freeze"]):
+                continue
+            n += 1
+            p = s_["path"]
+            if p.endswith("::__CALLSITE"):
+                r.exception("state:%s" % p, "tracing call-site registration (logging metadata only)")
+                r.ob("state:%s" % p, True, "%s:%s" % (s_["file"], s_["line"]), "tracing call-site")
+                continue
+            ok = p in REVIEWED_STATICS
+            if ok:
+                r.exception("state:%s" % p, REVIEWED_STATICS[p])
+            r.ob("state:%s" % p, ok, "%s:%s" % (s_["file"], s_["line"]), "static that can change: %s%s" % (p, " (reviewed: %s)" % REVIEWED_STATICS[p] if ok else " -- state kept between calls"))
+        r.ob("state:inventory", n >= 2, "", "%d statics that can change, all reviewed by name" % n)
+    ctx.run_rule("R18.11", "the library keeps no state between calls", body, floor=3)
+
+
 def run(ctx):
+    r18_11(ctx)
     r18_8(ctx)
     r18_1(ctx)
     r18_2(ctx)
